@@ -244,27 +244,46 @@ def condense_count(ctx, dev) -> None:
         ctx.rep.inconclusive(rule, cb + "/counter", f"cannot identify the step counter ({sorted(counters)})", where=f.where())
         return
     cnt = counters.pop()
-    incs = [n for n in fv.cfg.nodes if n.kind == "stmt" and isinstance(n.ast, ast.AugAssign) and is_name(n.ast.target, cnt)]
+    def counts_steps(name: str, depth: int = 0):
+        """(ok, detail, where): `name` is 0 plus one for every executed aspirate+dispense pair in the scope of its initialisation."""
+        incs_ = [n for n in fv.cfg.nodes if n.kind == "stmt" and isinstance(n.ast, ast.AugAssign) and is_name(n.ast.target, name)]
+        inits_ = [n for n in fv.cfg.nodes if n.kind == "stmt" and isinstance(n.ast, ast.Assign) and any(is_name(t, name) for t in n.ast.targets)]
+        if len(inits_) != 1 or not (isinstance(inits_[0].ast.value, ast.Constant) and inits_[0].ast.value.value == 0):
+            return False, f"`{name}` is not initialised to 0 exactly once", inits_[0].ast if inits_ else None
+        init_loops = fv.cfg.enclosing_loops(inits_[0].id)
+        if len(incs_) != 1:
+            return False, f"`{name}` is incremented {len(incs_)} times", incs_[0].ast if incs_ else None
+        inc = incs_[0]
+        if not isinstance(inc.ast.op, ast.Add):
+            return False, f"`{stmt_key(inc.ast)}` does not add", inc.ast
+        if fv.cfg.enclosing_loops(inc.id)[: len(init_loops)] != init_loops:
+            return False, f"`{name}` is initialised inside a loop that does not enclose its increment", inc.ast
+        if isinstance(inc.ast.value, ast.Constant) and inc.ast.value.value == 1:
+            same_block = fv.cfg.dominates(D.node, inc.id) and fv.cfg.dominates(A.node, inc.id) and fv.cfg.enclosing_loops(inc.id) == fv.cfg.enclosing_loops(D.node)
+            extra_tests = [d for d, _ in fv.controlling(inc.id) if d not in {x for x, _ in fv.controlling(D.node)}]
+            blocked = set(fv.cfg.enclosing_loops(D.node)[-1:])
+            always = inc.id in fv.cfg.reachable_from(D.node, blocked) and not extra_tests
+            if same_block and always:
+                return True, "", inc.ast
+            return False, f"`{stmt_key(inc.ast)}` is not executed exactly once per aspirate+dispense block", inc.ast
+        # += <sub-counter of one iteration>
+        if depth < 3 and isinstance(inc.ast.value, ast.Name):
+            chain = fv.alias_chain(inc.ast.value, inc.id)
+            sub_name = chain[-1] if chain else None
+            sub_inits = [n for n in fv.cfg.nodes if n.kind == "stmt" and isinstance(n.ast, ast.Assign) and any(is_name(t, sub_name) for t in n.ast.targets)]
+            inc_loops = fv.cfg.enclosing_loops(inc.id)
+            # the sub-counter starts from 0 in every iteration of the loop in which it is added, and is added unconditionally
+            if sub_name and len(sub_inits) == 1 and fv.cfg.enclosing_loops(sub_inits[0].id) == inc_loops and inc_loops and fv.cfg.dominates(sub_inits[0].id, inc.id) \
+                    and not fv.controlling(inc.id, within=fv.cfg.loop_body[inc_loops[-1]]):
+                return counts_steps(sub_name, depth + 1)
+        return False, f"`{stmt_key(inc.ast)}` does not add exactly 1", inc.ast
+
+    ok_cnt, detail, where_ast = counts_steps(cnt)
     inits = [n for n in fv.cfg.nodes if n.kind == "stmt" and isinstance(n.ast, ast.Assign) and any(is_name(t, cnt) for t in n.ast.targets)]
     ok_init = len(inits) == 1 and isinstance(inits[0].ast.value, ast.Constant) and inits[0].ast.value.value == 0 and not fv.cfg.enclosing_loops(inits[0].id)
     ctx.rep.check(ok_init, rule, cb + "/init", f"`{cnt}` starts at 0 before the loops", f"`{cnt}` is not initialised to 0 exactly once before the loops", where=f.where())
-    ok_inc = False
-    detail = f"`{cnt}` is incremented {len(incs)} times"
-    if len(incs) == 1:
-        inc = incs[0]
-        one = isinstance(inc.ast.op, ast.Add) and isinstance(inc.ast.value, ast.Constant) and inc.ast.value.value == 1
-        same_block = fv.cfg.dominates(D.node, inc.id) and fv.cfg.dominates(A.node, inc.id) and fv.cfg.enclosing_loops(inc.id) == fv.cfg.enclosing_loops(D.node)
-        # no test between the dispense and the increment, and the increment is reached whenever the dispense returns
-        extra_tests = [d for d, _ in fv.controlling(inc.id) if d not in {x for x, _ in fv.controlling(D.node)}]
-        blocked = set(fv.cfg.enclosing_loops(D.node)[-1:])
-        always = inc.id in fv.cfg.reachable_from(D.node, blocked) and not extra_tests
-        ok_inc = one and same_block and always
-        if not one:
-            detail = f"`{stmt_key(inc.ast)}` does not add exactly 1"
-        elif not (same_block and always):
-            detail = f"`{stmt_key(inc.ast)}` is not executed exactly once per aspirate+dispense block"
-    ctx.rep.check(ok_inc, rule, cb + "/increment", "counter += 1 exactly once per executed aspirate+dispense pair",
-                  detail + ": condense_log would merge too many or too few history entries", where=f.where(incs[0].ast if incs else None))
+    ctx.rep.check(ok_cnt, rule, cb + "/increment", "counter += 1 exactly once per executed aspirate+dispense pair",
+                  (detail or "") + ": condense_log would merge too many or too few history entries", where=f.where(where_ast))
     # condense calls: after all loops, conditional only on the identity of the two labware
     for cs in cond:
         recv = cs.call.func.value.id if isinstance(cs.call.func, ast.Attribute) and isinstance(cs.call.func.value, ast.Name) else "?"
